@@ -1,6 +1,8 @@
 (* C17 — declared feature types are enforced exactly as documented.  Property theorems only. *)
 From Coq Require Import List Bool.
+Import ListNotations.
 Require Import MV.Spec.Types MV.Model.Validate MV.Gen.TypeTables MV.Proofs.TypesP.
+Require Import MV.Model.ValidateChain MV.Proofs.ValidateChainP.
 
 (* The code's two compatibility relations and its Arrow->DataType map, regenerated from /repo on this run by
    evaluating them on all 121 pairs / 24 Arrow types, equal the documented tables. *)
@@ -39,7 +41,10 @@ Print Assumptions C17_strict_implies_lenient.
 
 Theorem C17_api_flag_forces_strict : forall d s, strict_mode (propagate_strict true (Some d) s) = true.
 Proof. exact api_flag_forces_strict_l. Qed.
-Theorem C17_api_flag_untyped_untouched : forall b s, propagate_strict b None s = s.
+Theorem C17_api_flag_every_requested : forall d s, strict_mode (propagate_strict true d s) = true.
+Proof. exact api_flag_every_requested_l. Qed.
+(* before fix 04e88fc an untyped requested feature was left untouched (and with it every typed feature below it) *)
+Theorem C17_api_flag_untyped_untouched_old : forall b s, propagate_strict_old b None s = s.
 Proof. exact api_flag_untyped_untouched_l. Qed.
 Print Assumptions C17_api_flag_forces_strict.
 
@@ -56,3 +61,72 @@ Example C17_raises_somewhere :
   /\ validate_raises code_strict code_lenient
     {| v_declared := Some INT32; v_present := true; v_actual := Some DOUBLE; v_strict := STrue |} = true.
 Proof. vm_compute; repeat split. Qed.
+
+(* ---- strict enforcement per call along dependency chains of ANY depth (Model/ValidateChain.v) ---- *)
+
+(* group options are handed on transitively: a strict flag nobody below contradicts is the effective option at every depth *)
+Theorem C17_strict_reaches_every_depth : forall ls,
+  (forall l, In l ls -> l_own l = SAbsent \/ l_own l = STrue) ->
+  effective STrue ls = Some (map (fun _ => STrue) ls).
+Proof. exact strict_reaches_every_depth_l. Qed.
+Print Assumptions C17_strict_reaches_every_depth.
+
+(* per-call flag (full statement, after fix 04e88fc): the call fails with a mismatch exactly when SOME typed feature of the chain -
+   the requested one or an input at whatever depth, whether or not the requested feature declares a type - produces a type
+   incompatible under the STRICT table; it never ends in the option-conflict error. *)
+Theorem C17_api_flag_chain_decision : forall strict lenient top rest,
+  l_own top <> SFalse ->
+  (forall l, In l rest -> l_own l = SAbsent \/ l_own l = STrue) ->
+  chain_run strict lenient true top rest = CMismatch <->
+  exists l d a, In l (top :: rest) /\ l_declared l = Some d /\ l_actual l = Some a /\ strict d a = false.
+Proof. exact api_flag_chain_decision_l. Qed.
+Print Assumptions C17_api_flag_chain_decision.
+
+Theorem C17_api_flag_chain_no_conflict : forall strict lenient top rest,
+  l_own top <> SFalse ->
+  (forall l, In l rest -> l_own l = SAbsent \/ l_own l = STrue) ->
+  chain_run strict lenient true top rest <> CConflict.
+Proof. exact api_flag_chain_no_conflict_l. Qed.
+Print Assumptions C17_api_flag_chain_no_conflict.
+
+Theorem C17_api_flag_own_false_rejected : forall strict lenient d0 a0 rest,
+  chain_run strict lenient true {| l_declared := d0; l_actual := a0; l_own := SFalse |} rest = CConflict.
+Proof. exact api_flag_own_false_rejected_l. Qed.
+Print Assumptions C17_api_flag_own_false_rejected.
+
+(* no strict flag anywhere: every depth is judged by the lenient table *)
+Theorem C17_lenient_chain_decision : forall strict lenient top rest,
+  l_own top = SAbsent -> (forall l, In l rest -> l_own l = SAbsent) ->
+  chain_run strict lenient false top rest = CMismatch <->
+  exists l d a, In l (top :: rest) /\ l_declared l = Some d /\ l_actual l = Some a /\ lenient d a = false.
+Proof. exact lenient_chain_decision_l. Qed.
+Print Assumptions C17_lenient_chain_decision.
+
+(* the code before fix 04e88fc attached the per-call flag to TYPED requested features only: a typed dependency of an untyped
+   requested feature was judged leniently although the call asked for strict enforcement (declared INT32, produced INT64);
+   kept as a regression input (harness/c17.py chain_cases) *)
+Theorem C17_api_flag_untyped_request_refuted_old :
+  chain_run_old strict_spec lenient_spec true
+    {| l_declared := None; l_actual := Some INT64; l_own := SAbsent |}
+    [ {| l_declared := Some INT32; l_actual := Some INT64; l_own := SAbsent |} ] = COk
+  /\ strict_spec INT32 INT64 = false.
+Proof. exact api_flag_untyped_request_refuted_l. Qed.
+Print Assumptions C17_api_flag_untyped_request_refuted_old.
+Theorem C17_api_flag_untyped_request_fixed :
+  chain_run strict_spec lenient_spec true
+    {| l_declared := None; l_actual := Some INT64; l_own := SAbsent |}
+    [ {| l_declared := Some INT32; l_actual := Some INT64; l_own := SAbsent |} ] = CMismatch.
+Proof. exact api_flag_untyped_request_fixed_l. Qed.
+
+Example C17_chain_depth3_raises :
+  chain_run strict_spec lenient_spec true
+    {| l_declared := Some INT64; l_actual := Some INT64; l_own := SAbsent |}
+    [ {| l_declared := None; l_actual := Some INT64; l_own := SAbsent |};
+      {| l_declared := Some STRING; l_actual := Some STRING; l_own := SAbsent |};
+      {| l_declared := Some INT32; l_actual := Some INT64; l_own := SAbsent |} ] = CMismatch
+  /\ chain_run strict_spec lenient_spec false
+    {| l_declared := Some INT64; l_actual := Some INT64; l_own := SAbsent |}
+    [ {| l_declared := None; l_actual := Some INT64; l_own := SAbsent |};
+      {| l_declared := Some STRING; l_actual := Some STRING; l_own := SAbsent |};
+      {| l_declared := Some INT32; l_actual := Some INT64; l_own := SAbsent |} ] = COk.
+Proof. vm_compute; split; reflexivity. Qed.
